@@ -595,6 +595,35 @@ def check(pid, tier="quick", seed=None, replay=None):
                     if stats["oracle"]:
                         break
 
+    # ---------------- property-specific extra phases (e.g. C10: other properties' cases under ASan,
+    # compile probes).  extra_checks(api) returns records {kind: ORACLE|DISAGREE|SANITIZER, clause, site,
+    # detail, case} and may bump api["evaluations"].
+    if hasattr(prop, "extra_checks") and not replay:
+        api = dict(tier=tier, seed=seed, workdir=workdir, harness_build=harness_build, run_harness=run_harness,
+                   load_prop=load_prop, claimed_props=claimed_props, write_cases=write_cases, compile_tu=compile_tu,
+                   CXXFLAGS=CXXFLAGS, ASANFLAGS=ASANFLAGS, CXX=CXX, REPO=REPO, ROOT=ROOT, BUILD=BUILD, NCPU=NCPU,
+                   evaluations=0, nontrivial=0, tags={})
+        try:
+            recs = prop.extra_checks(api) or []
+        except Exception as ex:
+            recs = [dict(kind="DISAGREE", clause="extra_checks_failed", site="props/%s.py" % pid, detail=repr(ex)[:300], case="-")]
+        stats["evaluations"] += api["evaluations"]
+        for i in range(api["nontrivial"]):
+            stats["nontrivial"].add("extra-%d" % i)
+        for t, n in api["tags"].items():
+            stats["tags"][t] = stats["tags"].get(t, 0) + n
+        for r in recs:
+            rec = dict(case=r.get("case", "-"), kind=r["kind"], clause=r["clause"], site=r["site"], detail=r.get("detail", ""), tag="extra", cid=-1)
+            k = match_known(known, rec["clause"], rec["site"], rec["case"])
+            if k is not None:
+                stats["known"].append((k, rec))
+            elif rec["kind"] == "ORACLE":
+                stats["oracle"].append(rec)
+            elif rec["kind"] == "SANITIZER":
+                stats["sanit"].append(rec)
+            else:
+                stats["disagreements"].append(rec)
+
     # ---------------- verdicts
     seen = set()
     for (k, rec) in stats["known"]:
